@@ -447,6 +447,28 @@ def judge_c16(d):
     return None
 
 
+def judge_c17(d):
+    q, impl, model = d["query"], d["impl"], d["model"]
+    fi = dict(t.split("=", 1) for t in impl.split() if "=" in t)
+    fm = dict(t.split("=", 1) for t in model.split() if "=" in t)
+    f = dict(t.split("=", 1) for t in q.split()[2:] if "=" in t)
+    origin = unhex(f.get("origin", "").replace(",", "")) if f.get("origin", "-") != "-" else b""
+    what = "client v=%s %s, origin stream %r in %d segment(s), client sink quotas %s" % (
+        f.get("v"), f.get("m"), origin[:120], len(f.get("origin", "").split(",")), f.get("q"))
+    if fi.get("body") != fm.get("body") or fi.get("ceof") != fm.get("ceof"):
+        return "%s: client received body %s with end of stream %s; the response body is %s with end of stream %s" % (
+            what, fi.get("body"), fi.get("ceof"), fm.get("body"), fm.get("ceof"))
+    if fi.get("head") != fm.get("head") or fi.get("interim") != fm.get("interim"):
+        return "%s: client was sent interim=%s head=%s, expected interim=%s head=%s" % (
+            what, fi.get("interim"), fi.get("head"), fm.get("interim"), fm.get("head"))
+    if fi.get("req") != fm.get("req") or fi.get("reqeof") != fm.get("reqeof"):
+        return "request %s %s forwarded as %r, expected %r" % (f.get("m"), f.get("uri"), unhex(fi.get("req", "")) if fi.get("req", "-") != "-" else b"",
+                                                               unhex(fm.get("req", "")) if fm.get("req", "-") != "-" else b"")
+    if impl.startswith("refused") or model.startswith("refused"):
+        return "request answered %s, expected %s" % (impl, model)
+    return None
+
+
 def judge_c19(d):
     q, impl, model = d["query"], d["impl"], d["model"]
     io, mo = impl.split(","), model.split(",")
@@ -757,6 +779,34 @@ PROPS = {
         assumptions=["an origin connection whose client vanished lingers until the endpoint next writes to the client or the tunnel "
                      "idles out (HTTP/2: a connection-level I/O error is read as end of stream): the model follows the code, the "
                      "zero-when-gone theorem is stated after the timeouts"],
+    ),
+    "C17": dict(
+        suites=["c17"],
+        judge=judge_c17,
+        level="proof",
+        rule="9 directed and 2500 (thorough 20000) generated exchanges through the real into_forwarded source and sink driven by the real "
+             "DuplexPipe: client speaking HTTP/1.0, 1.1, 2 or 3; 7 methods; request bodies with and without Content-Length in 3 "
+             "segmentations; origin responses with Content-Length, chunked (random chunk sizes, extensions, upper/lower-case hex), "
+             "close-delimited and bodiless (HEAD, 204, 304) framing, 0-2 interim 1xx heads, hop-by-hop and ordinary headers; the origin "
+             "byte stream whole, byte by byte, in 1-3 byte and in 1-40 byte segments; the client-side sink accepting everything, 0-2 "
+             "bytes, 1-8 bytes or 0/1/1000 bytes per write; the origin-side sink throttled too; compared: bytes the origin receives, "
+             "interim responses, response head (status, end-of-stream flag, headers), body bytes delivered, where end of stream fell. "
+             "Half as many mutated (malformed) origin streams are run for panics only. 16 (60) non-CONNECT requests go through real "
+             "HTTP/1.1 and HTTP/2 sessions and the real direct forwarder to a loopback origin (bodies up to 40000 bytes, chunked or "
+             "Content-Length, with and without 100 Continue, 3 segmentations) and are compared with an independent de-chunker.",
+        explanation="theorems segmentation_and_backpressure_independent, independent_after_origin_close, delivery_monotone, "
+                    "chunked_body_delivered_exactly, content_length_body_delivered_exactly, close_delimited_body_delivered_exactly, "
+                    "bodiless_response_ends_with_head, head_204_304_are_bodiless, interim_response_is_transparent, "
+                    "hop_by_hop_headers_removed, forwarded_headers_are_origin_headers, end_to_end_headers_kept, request_line_preserved, "
+                    "request_headers_preserved, request_body_content_length, request_content_length_respected about TT/Model/Fwd.lean",
+        trusted=["httparse (response head, chunk size line) as re-written in the model for the generated grammar: CRLF line ends, "
+                 "'Name: value' headers, hex sizes with optional ';ext'; compared with the real parser through the whole sink on every run",
+                 "http crate URI parsing: path-and-query and authority are model inputs",
+                 "the real HTTP/1.1 / HTTP/2 codecs behind the responder are exercised by the live runs only; HTTP/3 is not driven",
+                 "headers named by a Connection header are dropped only when they follow it (as the code does): the judge asserts the "
+                 "fixed hop-by-hop set"],
+        assumptions=["an origin that sends bytes beyond Content-Length or after the terminating chunk is outside the property; the "
+                     "client has its complete response by then and the model follows the code (the pipe ends with an error)"],
     ),
     "C19": dict(
         suites=["c19"],
